@@ -49,7 +49,10 @@ class _Generator(Generator):
             return str(type_.default).lower()
         elif isinstance(type_, uper.Enumerated):
             return self.format_default_enumerated(type_)
-        elif type_.default > 9223372036854775807:
+        elif isinstance(type_, uper.BitString):
+            raise self.error('BIT STRING with a default value.')
+        elif (isinstance(type_.default, int)
+              and type_.default > 9223372036854775807):
             # Too big for a signed integer constant.
             return '{}u'.format(type_.default)
         else:
@@ -68,6 +71,11 @@ class _Generator(Generator):
             return self.format_user_type(type_.type_name,
                                          type_.module_name)
         elif isinstance(type_, uper.OctetString):
+            if (type_.default is not None
+                and checker.minimum == checker.maximum):
+                raise self.error(
+                    'OCTET STRING of fixed size with a default value.')
+
             return self.format_octet_string(checker)
         elif isinstance(type_, uper.Sequence):
             return self.format_sequence(type_, checker)
